@@ -691,3 +691,10 @@ package calendar
 //@ sweep LiuYue: self.liuNian != nil && 0 <= self.index && self.index <= 11 && 0 <= self.liuNian.year && self.liuNian.year <= 10000 [C08]
 //@ sweep XiaoYun: self.lunar != nil && self.daYun != nil && 0 <= self.index && self.index <= 9 && 0 <= self.daYun.index && self.daYun.index <= 9 && 1 <= self.daYun.startAge && self.daYun.startAge <= 200 [C08]
 //@ sweep Lunar LunarYear LunarMonth LunarTime EightChar NineStar Tao Foto JieQi Fu ShuJiu TaoFestival FotoFestival [C08]
+
+//@ # the Yang Gong taboo day predicate is total (it walks the day's festival list)
+//@ ghost func fotoYangGongTotal(f *Foto) [C08 C17]
+//@   requires f.lunar != nil
+//@   body
+//@     b := f.IsDayYangGong()
+//@     assert(b || !b)
